@@ -246,6 +246,154 @@ func wellFormed6(r *rand.Rand, ownDUID dhcpv6.DUID) ([]byte, string) {
 	return outer.ToBytes(), kind
 }
 
+// ---- clients that remember what they were told (conversations, not only single datagrams) -----------
+
+type convState struct {
+	held6    map[string][]*net.IPNet // hardware address -> prefixes replies delegated to it, in the order told
+	offered4 map[string]net.IP       // hardware address -> yiaddr of the last reply
+}
+
+func newConvState() *convState {
+	return &convState{held6: map[string][]*net.IPNet{}, offered4: map[string]net.IP{}}
+}
+
+func (st *convState) learn(fr feedRes) {
+	for _, s := range fr.sent4 {
+		if s.Resp != nil && s.Resp.YourIPAddr != nil && !s.Resp.YourIPAddr.IsUnspecified() {
+			st.offered4[s.Resp.ClientHWAddr.String()] = s.Resp.YourIPAddr
+		}
+	}
+	for _, s := range fr.sent6 {
+		if s.Resp == nil {
+			continue
+		}
+		m, err := s.Resp.GetInnerMessage()
+		if err != nil {
+			continue
+		}
+		cid := m.Options.ClientID()
+		ll, ok := cid.(*dhcpv6.DUIDLL)
+		if !ok {
+			continue
+		}
+		k := ll.LinkLayerAddr.String()
+		for _, pd := range m.Options.IAPD() {
+			for _, p := range pd.Options.Prefixes() {
+				if p.Prefix == nil {
+					continue
+				}
+				dup := false
+				for _, h := range st.held6[k] {
+					dup = dup || h.String() == p.Prefix.String()
+				}
+				if !dup && len(st.held6[k]) < 6 {
+					st.held6[k] = append(st.held6[k], p.Prefix)
+				}
+			}
+		}
+	}
+}
+
+// followUp6: a client that holds prefixes comes back - REQUEST / RENEW / REBIND / RELEASE / DECLINE / SOLICIT
+// naming what it holds, in every layout a client may choose
+func followUp6(r *rand.Rand, ownDUID dhcpv6.DUID, st *convState) ([]byte, string, bool) {
+	var macs []string
+	for k, v := range st.held6 {
+		if len(v) > 0 {
+			macs = append(macs, k)
+		}
+	}
+	if len(macs) == 0 {
+		return nil, "", false
+	}
+	sortStrings(macs)
+	k := macs[r.Intn(len(macs))]
+	held := st.held6[k]
+	mac, _ := net.ParseMAC(k)
+	typ := []dhcpv6.MessageType{3, 5, 6, 8, 9, 1, 8, 5}[r.Intn(8)]
+	m := &dhcpv6.Message{MessageType: typ}
+	r.Read(m.TransactionID[:])
+	m.AddOption(dhcpv6.OptClientID(&dhcpv6.DUIDLL{HWType: 1, LinkLayerAddr: mac}))
+	if typ != 6 && typ != 1 {
+		m.AddOption(dhcpv6.OptServerID(ownDUID))
+	}
+	pfx := func(n *net.IPNet) *dhcpv6.OptIAPrefix {
+		return &dhcpv6.OptIAPrefix{PreferredLifetime: 600 * time.Second, ValidLifetime: 900 * time.Second, Prefix: n}
+	}
+	layout := []string{"one-each", "all-in-one", "first", "last", "reversed", "plus-new", "twice"}[r.Intn(7)]
+	iaid := byte(0)
+	addPD := func(ps ...*net.IPNet) {
+		pd := &dhcpv6.OptIAPD{IaId: [4]byte{2, 0, 0, iaid}}
+		iaid++
+		for _, n := range ps {
+			pd.Options.Add(pfx(n))
+		}
+		m.AddOption(pd)
+	}
+	switch layout {
+	case "one-each":
+		for _, n := range held {
+			addPD(n)
+		}
+	case "all-in-one":
+		addPD(held...)
+	case "first":
+		addPD(held[0])
+	case "last":
+		addPD(held[len(held)-1])
+	case "reversed":
+		for i := len(held) - 1; i >= 0; i-- {
+			addPD(held[i])
+		}
+	case "plus-new":
+		addPD(held[0])
+		addPD(&net.IPNet{IP: net.ParseIP(fmt.Sprintf("2001:db8:0:fff%x::", 12+r.Intn(4))), Mask: net.CIDRMask(64, 128)})
+	case "twice":
+		addPD(held[0], held[0])
+	}
+	return m.ToBytes(), fmt.Sprintf("t%d-follow-%s", int(typ), layout), true
+}
+
+// followUp4: REQUEST (selecting: requested address + server identifier; renewing: ciaddr), DECLINE, RELEASE of what was offered
+func followUp4(r *rand.Rand, st *convState) ([]byte, string, bool) {
+	var macs []string
+	for k := range st.offered4 {
+		macs = append(macs, k)
+	}
+	if len(macs) == 0 {
+		return nil, "", false
+	}
+	sortStrings(macs)
+	k := macs[r.Intn(len(macs))]
+	mac, _ := net.ParseMAC(k)
+	ip := st.offered4[k]
+	d, _ := dhcpv4.New()
+	r.Read(d.TransactionID[:])
+	d.ClientHWAddr = mac
+	kind := []string{"request-selecting", "request-renewing", "decline", "release", "request-wrong-address"}[r.Intn(5)]
+	switch kind {
+	case "request-selecting":
+		d.UpdateOption(dhcpv4.OptMessageType(dhcpv4.MessageTypeRequest))
+		d.UpdateOption(dhcpv4.OptRequestedIPAddress(ip))
+		d.UpdateOption(dhcpv4.OptServerIdentifier(net.IPv4(10, 0, 0, 1)))
+	case "request-renewing":
+		d.UpdateOption(dhcpv4.OptMessageType(dhcpv4.MessageTypeRequest))
+		d.ClientIPAddr = ip.To4()
+	case "decline":
+		d.UpdateOption(dhcpv4.OptMessageType(dhcpv4.MessageTypeDecline))
+		d.UpdateOption(dhcpv4.OptRequestedIPAddress(ip))
+		d.UpdateOption(dhcpv4.OptServerIdentifier(net.IPv4(10, 0, 0, 1)))
+	case "release":
+		d.UpdateOption(dhcpv4.OptMessageType(dhcpv4.MessageTypeRelease))
+		d.ClientIPAddr = ip.To4()
+		d.UpdateOption(dhcpv4.OptServerIdentifier(net.IPv4(10, 0, 0, 1)))
+	default:
+		d.UpdateOption(dhcpv4.OptMessageType(dhcpv4.MessageTypeRequest))
+		d.UpdateOption(dhcpv4.OptRequestedIPAddress(net.IPv4(10, 0, 0, byte(1+r.Intn(250)))))
+	}
+	return d.ToBytes(), "follow-" + kind, true
+}
+
 // optShort4 rewrites one option of a DHCPv4 datagram (or injects it) with a value of 0..5 random bytes:
 // the codec does not validate per-option lengths, so every reader of an option meets these.
 func optShort4(b []byte, r *rand.Rand) ([]byte, bool) {
@@ -505,6 +653,7 @@ func runServerOne(t *Trace, c4, c6 []plugConf, seed int64, ndg int) error {
 	own := &dhcpv6.DUIDLL{HWType: 1, LinkLayerAddr: net.HardwareAddr{0, 0xde, 0xad, 0xbe, 0xef, 0}}
 	peer4 := &net.UDPAddr{IP: net.IPv4(10, 0, 0, 9), Port: 68}
 	dead := false
+	conv := newConvState()
 	for i := 0; i < ndg && !dead; i++ {
 		proto := 4
 		if c4 == nil || (c6 != nil && r.Intn(2) == 0) {
@@ -517,8 +666,32 @@ func runServerOne(t *Trace, c4, c6 []plugConf, seed int64, ndg int) error {
 		} else {
 			b, kind = wellFormed6(r, own)
 		}
+		if r.Intn(3) == 0 { // a client that remembers what it was told comes back
+			if proto == 6 {
+				if fb, fk, ok := followUp6(r, own, conv); ok {
+					b, kind = fb, fk
+				}
+			} else if fb, fk, ok := followUp4(r, conv); ok {
+				b, kind = fb, fk
+			}
+		}
+		long := ndg >= 1000 && i%3 == 0
+		if long {
+			// long-lived process: a steady share of requests that the chain ends early for (they name another server)
+			if proto == 4 {
+				d, _ := dhcpv4.NewDiscovery(srvMacs[r.Intn(len(srvMacs))])
+				d.UpdateOption(dhcpv4.OptMessageType(dhcpv4.MessageTypeRequest))
+				d.UpdateOption(dhcpv4.OptServerIdentifier(net.IPv4(10, 0, 0, 77)))
+				b, kind = d.ToBytes(), "request-other-server"
+			} else {
+				m, _ := dhcpv6.NewSolicit(srvMacs[r.Intn(len(srvMacs))])
+				m.MessageType = dhcpv6.MessageTypeRequest
+				m.AddOption(dhcpv6.OptServerID(&dhcpv6.DUIDLL{HWType: 1, LinkLayerAddr: net.HardwareAddr{9, 9, 9, 9, 9, 9}}))
+				b, kind = m.ToBytes(), "t3-other-server"
+			}
+		}
 		mut := "none"
-		if r.Intn(5) < 2 {
+		if !long && r.Intn(5) < 2 {
 			b, mut = mutate(b, r)
 		}
 		peer := peer4
@@ -526,6 +699,7 @@ func runServerOne(t *Trace, c4, c6 []plugConf, seed int64, ndg int) error {
 			peer = &net.UDPAddr{IP: net.ParseIP([]string{"2001:db8::99", "fe80::99"}[r.Intn(2)]), Port: 546}
 		}
 		fr := feed(l4, l6, proto, b, 7, peer)
+		conv.learn(fr)
 		t.Emit(Ev{"ev": "dg", "proto": proto, "kind": kind, "mut": mut, "len": len(b), "res": fr.res, "n": fr.n, "msg": fr.msg})
 		if fr.res == "wedged" || fr.res == "slow" {
 			dead = true
@@ -574,16 +748,30 @@ func runServerOne(t *Trace, c4, c6 []plugConf, seed int64, ndg int) error {
 		bw.Wait()
 	}
 	// liveness probes: one ordinary request per protocol must still be handled
+	// "must": this chain cannot but answer the probe (a listed client of the static file, which answers before any
+	// pool that could be exhausted; a SOLICIT without server identifier) - a silent drop then means the server no
+	// longer handles datagrams
 	if c4 != nil {
-		d, _ := dhcpv4.NewDiscovery(srvMacs[2])
+		d, _ := dhcpv4.NewDiscovery(srvMacs[0])
+		d.Options[uint8(dhcpv4.OptionAutoConfigure)] = []byte{1}
+		must := true
+		for _, p := range c4 {
+			if p.Name == "file" {
+				break
+			}
+			if p.Name == "range" {
+				must = false // may be exhausted by the history
+				break
+			}
+		}
 		fr := feed(l4, l6, 4, d.ToBytes(), 7, peer4)
-		t.Emit(Ev{"ev": "probe", "proto": 4, "res": fr.res, "n": fr.n, "msg": fr.msg})
+		t.Emit(Ev{"ev": "probe", "proto": 4, "res": fr.res, "n": fr.n, "msg": fr.msg, "must": must})
 	}
 	if c6 != nil {
 		m, _ := dhcpv6.NewSolicit(srvMacs[2])
 		m.AddOption(&dhcpv6.OptIAPD{IaId: [4]byte{7, 7, 7, 7}})
 		fr := feed(l4, l6, 6, m.ToBytes(), 7, &net.UDPAddr{IP: net.ParseIP("fe80::77"), Port: 546})
-		t.Emit(Ev{"ev": "probe", "proto": 6, "res": fr.res, "n": fr.n, "msg": fr.msg})
+		t.Emit(Ev{"ev": "probe", "proto": 6, "res": fr.res, "n": fr.n, "msg": fr.msg, "must": true})
 	}
 	return nil
 }
@@ -660,8 +848,12 @@ func runServerChains(t *Trace, dir string, seed int64, level, ndg, par, shard, s
 			j4, _ := json.Marshal(c[0])
 			j6, _ := json.Marshal(c[1])
 			tmp := filepath.Join(d, "trace.ndjson")
+			n := ndg
+			if len(c[0]) >= 5 && len(c[1]) >= 3 {
+				n = 50 * ndg // the full chains also run as long-lived processes: what is kept per datagram must be given back on every path
+			}
 			cmd := exec.Command(self, "server", "-mode", "one", "-c4", string(j4), "-c6", string(j6), "-seed", strconv.FormatInt(seed*10007+int64(i), 10),
-				"-ndg", strconv.Itoa(ndg), "-out", tmp)
+				"-ndg", strconv.Itoa(n), "-out", tmp)
 			cmd.Dir = d
 			var stderr bytes.Buffer
 			cmd.Stderr = &stderr
